@@ -237,7 +237,7 @@ template<class S> void runCase(const CaseSpec &cs)
 		for (size_t i = 0; i < n; i++) stlLeft[i] = stl[i].len;
 		std::vector<bool> stallNow(n, false), stallMustStayLow(n, false);
 		bool prevVout = false, prevRout = false;
-		unsigned quiet = 0, snkCount = 0;
+		unsigned quiet = 0, snkCount = 0, noTransfer = 0;
 		const unsigned maxCycles = cs.ncycles + 4000;
 		// stay idle (valid = 0, ready = 0, not stalled) until the design is out of reset; these cycles are not logged
 		for (unsigned k = 0;; k++) {
@@ -296,7 +296,7 @@ template<class S> void runCase(const CaseSpec &cs)
 			line << "c ";
 			for (size_t i = 0; i < n; i++) line << (stallNow[i] ? '1' : '0');
 			if (n == 0) line << '-';
-			bool any = false, b0r = false;
+			bool any = false, b0r = false, anyTransfer = false;
 			std::vector<bool> bv(n + 1), br(n + 1);
 			for (size_t i = 0; i <= n; i++) {
 				bool dv, dr, de, ds;
@@ -306,6 +306,7 @@ template<class S> void runCase(const CaseSpec &cs)
 				if (v && dv) line << hexOf(taps[i]->d) << ',' << (de ? (e ? '1' : '0') : 'u') << (ds ? (s ? '1' : '0') : 'u') << ',' << hexOf(taps[i]->m);
 				else line << "-,--,-";
 				any = any || v || !dv;
+				anyTransfer = anyTransfer || (v && r);
 				if (i == 0) b0r = r;
 			}
 			std::cout << line.str() << "\n";
@@ -314,7 +315,11 @@ template<class S> void runCase(const CaseSpec &cs)
 			for (size_t i = 0; i < n; i++) if (stallPins[i])
 				stallMustStayLow[i] = bv[i] && !stallNow[i] && !br[i + 1];
 			prevVout = bv[n]; prevRout = br[n];
-			if (drain) { quiet = any ? 0 : quiet + 1; if (quiet >= 8) break; }
+			if (drain) {
+				quiet = any ? 0 : quiet + 1;
+				noTransfer = anyTransfer ? 0 : noTransfer + 1;
+				if (quiet >= 8 || noTransfer >= 64) break; // drained, or permanently stuck with ready high and nothing stalled
+			}
 			co_await OnClk(clock);
 		}
 		sim.abort();
